@@ -161,11 +161,59 @@ theorem scan_window_notfound (w ext : List UInt8) (sp : Nat) (acc : List Nat) (B
   have e : scan w sp acc = (false, (scan w sp acc).2.1, (scan w sp acc).2.2) := by rw [← h]
   exact scan_resume_notfound w ext sp acc _ _ e
 
+/-! ## policies -/
+
+/-- what the reader needs from a policy to never report `BufferLimit`: asked with a capacity
+≥ 1 it never refuses and answers more than it was passed (`PolOk` demands this for capacity 0
+as well, which the doubling built-in policies do not satisfy) -/
+def PolGrows (p : Pol) : Prop :=
+  ∀ (h : List Nat) (cur : Nat), 1 ≤ cur → ∃ n, p.f (h ++ [cur]) = some n ∧ cur < n
+
+/-- a policy that may refuse, but when it answers a request with capacity ≥ 1, answers more
+than it was passed (`PolWf` restricted to positive capacities) -/
+def PolWfPos (p : Pol) : Prop :=
+  ∀ (h : List Nat) (cur n : Nat), 1 ≤ cur → p.f (h ++ [cur]) = some n → cur < n
+
+theorem PolOk.grows {p : Pol} (h : PolOk p) : PolGrows p := fun hist cur _ => h hist cur
+
+theorem PolGrows.wfPos {p : Pol} (h : PolGrows p) : PolWfPos p := by
+  intro hist cur n hc hn
+  obtain ⟨m, hm, hlt⟩ := h hist cur hc
+  rw [hm] at hn
+  cases hn
+  exact hlt
+
+theorem PolWf.wfPos {p : Pol} (h : PolWf p) : PolWfPos p := fun hist cur n _ hn => h hist cur n hn
+
+theorem polGrows_std : PolGrows PolDesc.std.toPol := by
+  intro h cur hc
+  refine ⟨_, rfl, ?_⟩
+  simp only [List.getLastD_eq_getLast?, List.getLast?_append, List.getLast?_singleton,
+    Option.some_or, Option.getD_some]
+  split <;> omega
+
+theorem polGrows_doubleUntil (t : Nat) (ht : 1 ≤ t) : PolGrows (PolDesc.doubleUntil t).toPol := by
+  intro h cur hc
+  refine ⟨_, rfl, ?_⟩
+  simp only [List.getLastD_eq_getLast?, List.getLast?_append, List.getLast?_singleton,
+    Option.some_or, Option.getD_some]
+  split <;> omega
+
+theorem polGrows_congr {p q : Pol} (h : q.f = p.f) (hp : PolGrows p) : PolGrows q := by
+  intro hist cur hc
+  rw [h]
+  exact hp hist cur hc
+
+theorem polWfPos_congr {p q : Pol} (h : q.f = p.f) (hp : PolWfPos p) : PolWfPos q := by
+  intro hist cur n hc
+  rw [h]
+  exact hp hist cur n hc
+
 /-! ## reader-level invariants -/
 
 structure Win (inp : List UInt8) (r : Reader) : Prop where
   b : WinB inp r.br
-  pol : PolOk r.pol
+  pol : PolWfPos r.pol
 
 def Eof (inp : List UInt8) (r : Reader) : Prop := EofB inp r.br
 
@@ -219,10 +267,11 @@ theorem finalPos_shift (B : Nat) (x : Bool × Nat × List Nat) :
 /-- one `search` from a scan state -/
 theorem search_step {inp : List UInt8} {r : Reader} {s : Nat}
     (hw : Win inp r) (he : Eof inp r) (hs : ScanSt inp r s) (hst : r.state ≠ .finished) :
-    ∃ r' f, search r = some (r', f) ∧ r'.br = r.br ∧ r'.pol = r.pol ∧ r'.line = r.line ∧
-      r'.byte = r.byte ∧ r'.bp.start = r.bp.start ∧
+    ∃ r' f, search r = some (r', f) ∧ r'.br = r.br ∧ r'.pol = r.pol ∧ r'.log = r.log ∧
+      r'.line = r.line ∧ r'.byte = r.byte ∧ r'.bp.start = r.bp.start ∧
       (f = true → RecDone inp r' s ∧ (r'.state = r.state ∨ r'.state = .finished)) ∧
-      (f = false → ScanSt inp r' s ∧ r'.state = .incomplete ∧ r.br.cap ≤ r.br.buf.length) := by
+      (f = false → ScanSt inp r' s ∧ r'.state = .incomplete ∧ r.br.cap ≤ r.br.buf.length ∧
+        r.br.buf.length ≤ r'.searchPos + 1) := by
   have hsp := hs.sp_le
   have hwd := win_drop hw.b r.searchPos hsp
   have hres := hs.resum
@@ -239,7 +288,7 @@ theorem search_step {inp : List UInt8} {r : Reader} {s : Nat}
     have hS : scan (inp.drop s) s [] = shiftRes (baseB r.br) x := by
       rw [← hres, ← hx]
       exact scan_window_found _ _ _ _ _ (by rw [hx]; exact hf)
-    refine ⟨_, _, rfl, rfl, rfl, rfl, rfl, rfl, ?_, by intro h; cases h⟩
+    refine ⟨_, _, rfl, rfl, rfl, rfl, rfl, rfl, rfl, ?_, by intro h; cases h⟩
     intro _
     refine ⟨⟨hs.start_eq, ?_, ?_, ?_, ?_⟩, Or.inl rfl⟩
     · intro p hp
@@ -270,7 +319,7 @@ theorem search_step {inp : List UInt8} {r : Reader} {s : Nat}
       have hS : scan (inp.drop s) s [] = shiftRes (baseB r.br) x := by
         rw [← hres, ← hx, hcur, List.drop_length, List.append_nil]
         exact scan_shift _ _ _ _
-      refine ⟨_, _, rfl, rfl, rfl, rfl, rfl, rfl, ?_, by intro h; cases h⟩
+      refine ⟨_, _, rfl, rfl, rfl, rfl, rfl, rfl, rfl, ?_, by intro h; cases h⟩
       intro _
       refine ⟨⟨hs.start_eq, ?_, ?_, ?_, ?_⟩, Or.inr rfl⟩
       · intro p hp
@@ -292,9 +341,12 @@ theorem search_step {inp : List UInt8} {r : Reader} {s : Nat}
         cases h
     · -- buffer exhausted without result
       rw [if_neg hlt]
-      refine ⟨_, _, rfl, rfl, rfl, rfl, rfl, rfl, (by intro h; cases h), ?_⟩
+      have hnear := scan_notfound_sp (r.br.buf.drop r.searchPos) r.searchPos r.bp.seqPos
+        (by rw [hx]; exact hf')
+      rw [hx, List.length_drop] at hnear
+      refine ⟨_, _, rfl, rfl, rfl, rfl, rfl, rfl, rfl, (by intro h; cases h), ?_⟩
       intro _
-      refine ⟨⟨hs.start_eq, ?_, ?_, ?_, ?_⟩, rfl, by omega⟩
+      refine ⟨⟨hs.start_eq, ?_, ?_, ?_, ?_⟩, rfl, by omega, (by show r.br.buf.length ≤ x.2.1 + 1; omega)⟩
       · have := hs.start_le
         show r.bp.start ≤ x.2.1
         omega
@@ -312,22 +364,89 @@ theorem search_step {inp : List UInt8} {r : Reader} {s : Nat}
         have e : r.searchPos + (x.2.1 - r.searchPos) = x.2.1 := by omega
         rw [← hres, win_drop hw.b x.2.1 (by omega), h1, List.drop_drop, e]
 
+/-! ## growth bookkeeping -/
+
+/-- `LogChain c0 new cf`: the policy requests `new` form a chain that starts with the capacity
+`c0`; every request is made with the current capacity, an answer `some n` makes `n` the current
+capacity, a refusal ends the chain; `cf` is the capacity at the end. -/
+def LogChain : Nat → List (Nat × Option Nat) → Nat → Prop
+  | c0, [], cf => cf = c0
+  | c0, (c, some n) :: rest, cf => c = c0 ∧ LogChain n rest cf
+  | c0, (c, none) :: rest, cf => c = c0 ∧ rest = [] ∧ cf = c0
+
+theorem LogChain.append {pre post : List (Nat × Option Nat)} {a b c : Nat}
+    (h1 : LogChain a pre b) (hs : ∀ e ∈ pre, e.2 ≠ none) (h2 : LogChain b post c) :
+    LogChain a (pre ++ post) c := by
+  induction pre generalizing a with
+  | nil =>
+    simp only [LogChain] at h1
+    subst h1
+    exact h2
+  | cons e pre ih =>
+    rcases e with ⟨x, _ | n⟩
+    · exact absurd rfl (hs (x, none) (by simp))
+    · simp only [LogChain, List.cons_append] at h1 ⊢
+      exact ⟨h1.1, ih h1.2 (fun e he => hs e (by simp [he]))⟩
+
+/-- the extent of the record that starts at absolute offset `s`: up to and including the
+terminator before the next record, or up to the end of the input -/
+def recExtent (inp : List UInt8) (s : Nat) : Nat :=
+  if (scan (inp.drop s) s []).1 then (scan (inp.drop s) s []).2.1 - s else inp.length - s
+
+/-- what one operation does to the policy log, the policy and the capacity -/
+structure Growth (r r' : Reader) (new : List (Nat × Option Nat)) : Prop where
+  log : r'.log = r.log ++ new
+  polf : r'.pol.f = r.pol.f
+  chain : LogChain r.br.cap new r'.br.cap
+
+theorem Growth.same {r r' : Reader} (hl : r'.log = r.log) (hp : r'.pol.f = r.pol.f)
+    (hc : r'.br.cap = r.br.cap) : Growth r r' [] :=
+  ⟨by rw [hl, List.append_nil], hp, hc⟩
+
+theorem Growth.trans {r r1 r' : Reader} {pre post : List (Nat × Option Nat)}
+    (h1 : Growth r r1 pre) (hs : ∀ e ∈ pre, e.2 ≠ none) (h2 : Growth r1 r' post) :
+    Growth r r' (pre ++ post) :=
+  ⟨by rw [h2.log, h1.log, List.append_assoc], by rw [h2.polf, h1.polf],
+    h1.chain.append hs h2.chain⟩
+
 /-! ## `grow`, `make_room` -/
 
-theorem polOk_hist (p : Pol) (h : List Nat) (hp : PolOk p) : PolOk { p with hist := h } := hp
+theorem polWfPos_hist (p : Pol) (h : List Nat) (hp : PolWfPos p) : PolWfPos { p with hist := h } := hp
 
-theorem grow_ok {r : Reader} (hp : PolOk r.pol) (hfull : r.br.cap ≤ r.br.buf.length) :
-    ∃ r' a, grow r = (r', .ok ()) ∧ r'.br = r.br.reserve a ∧ r.br.cap < r'.br.cap ∧
+theorem reserve_cap_full (b : BufRd) (n : Nat) (hfull : b.cap ≤ b.buf.length) (hn : b.cap < n) :
+    (b.reserve (n - b.cap)).cap = n := by
+  unfold BufRd.reserve
+  simp only
+  split
+  · omega
+  · split <;> simp only <;> omega
+
+/-- `grow` with a full buffer: the policy is asked with the current capacity; an answer becomes
+the new capacity, a refusal is `BufferLimit` -/
+theorem grow_spec {r : Reader} (hp : PolWfPos r.pol) (hfull : r.br.cap ≤ r.br.buf.length)
+    (hcap : 1 ≤ r.br.cap) :
+    (∃ r' n, r.pol.f (r.pol.hist ++ [r.br.cap]) = some n ∧ grow r = (r', .ok ()) ∧
+      r'.br = r.br.reserve (n - r.br.cap) ∧ r.br.cap < n ∧ r'.br.cap = n ∧
+      r'.log = r.log ++ [(r.br.cap, some n)] ∧ r'.pol.f = r.pol.f ∧
       r'.bp = r.bp ∧ r'.line = r.line ∧ r'.byte = r.byte ∧ r'.searchPos = r.searchPos ∧
-      r'.state = r.state ∧ PolOk r'.pol := by
-  obtain ⟨n, hn, hlt⟩ := hp r.pol.hist r.br.cap
-  have hle : r.br.cap ≤ n := by omega
-  refine ⟨{ r with pol := { r.pol with hist := r.pol.hist ++ [r.br.cap] },
+      r'.state = r.state) ∨
+    (∃ r', r.pol.f (r.pol.hist ++ [r.br.cap]) = none ∧ grow r = (r', .err .bufferLimit) ∧
+      r'.br = r.br ∧ r'.log = r.log ++ [(r.br.cap, none)] ∧ r'.pol.f = r.pol.f) := by
+  cases hn : r.pol.f (r.pol.hist ++ [r.br.cap]) with
+  | none =>
+    right
+    refine ⟨{ r with pol := { r.pol with hist := r.pol.hist ++ [r.br.cap] },
+                     log := r.log ++ [(r.br.cap, none)] }, rfl, ?_, rfl, rfl, rfl⟩
+    simp only [grow, Pol.growTo, hn]
+  | some n =>
+    left
+    have hlt : r.br.cap < n := hp _ _ _ hcap hn
+    have hle : r.br.cap ≤ n := by omega
+    refine ⟨{ r with pol := { r.pol with hist := r.pol.hist ++ [r.br.cap] },
                      log := r.log ++ [(r.br.cap, some n)],
-                     br := r.br.reserve (n - r.br.cap) }, n - r.br.cap, ?_, rfl, ?_, rfl, rfl, rfl, rfl, rfl, ?_⟩
-  · simp only [grow, Pol.growTo, hn, csub, hle, if_true]
-  · exact reserve_cap_gt _ _ hfull (by omega)
-  · exact polOk_hist _ _ hp
+                     br := r.br.reserve (n - r.br.cap) }, n, rfl, ?_, rfl, hlt,
+      reserve_cap_full _ _ hfull hlt, rfl, rfl, rfl, rfl, rfl, rfl, rfl⟩
+    simp only [grow, Pol.growTo, hn, csub, hle, if_true]
 
 theorem mapSub_eq (c : Nat) (l : List Nat) (h : ∀ p ∈ l, c ≤ p) :
     mapSub c l = some (l.map (· - c)) := by
@@ -358,12 +477,13 @@ theorem makeRoom_scanSt {inp : List UInt8} {r : Reader} {s : Nat} (hw : Win inp 
     (h : ScanSt inp r s) :
     ∃ r', makeRoom r = some r' ∧ Win inp r' ∧ ScanSt inp r' s ∧ r'.state = r.state ∧
       r'.br.buf.length = r.br.buf.length - r.bp.start ∧ r'.br.cap = r.br.cap ∧
-      r'.br.src.cursor = r.br.src.cursor ∧ r'.line = r.line ∧ r'.byte = r.byte := by
+      r'.br.src.cursor = r.br.src.cursor ∧ r'.line = r.line ∧ r'.byte = r.byte ∧
+      r'.log = r.log ∧ r'.pol = r.pol := by
   have hsl := h.start_le
   have hsp := h.sp_le
   have hc : r.bp.start ≤ r.br.buf.length := by omega
   obtain ⟨hwb, hbase⟩ := consume_win hw.b r.bp.start hc
-  refine ⟨_, makeRoom_eq r hsl (fun p hp => (h.pos_lt p hp).1), ⟨hwb, hw.pol⟩, ?_, rfl, ?_, rfl, rfl, rfl, rfl⟩
+  refine ⟨_, makeRoom_eq r hsl (fun p hp => (h.pos_lt p hp).1), ⟨hwb, hw.pol⟩, ?_, rfl, ?_, rfl, rfl, rfl, rfl, rfl, rfl⟩
   · refine ⟨?_, ?_, ?_, ?_, ?_⟩
     · show 0 + baseB (r.br.consume r.bp.start) = s
       rw [hbase, ← h.start_eq]; unfold base; omega
@@ -396,76 +516,154 @@ theorem makeRoom_scanSt {inp : List UInt8} {r : Reader} {s : Nat} (hw : Win inp 
 
 /-! ## `resume_incomplete_search` -/
 
+/-- a full buffer that starts with the record and does not contain its end: the record does not
+fit the capacity -/
+theorem unfit_of_full {inp : List UInt8} {r : Reader} {s : Nat} (hw : Win inp r)
+    (hs : ScanSt inp r s) (h0 : r.bp.start = 0) (hfull : r.br.cap ≤ r.br.buf.length)
+    (hnear : r.br.buf.length ≤ r.searchPos + 1) : r.br.cap < recExtent inp s + 1 := by
+  have hse := hs.start_eq
+  rw [h0, Nat.zero_add] at hse
+  have hba := hw.b.base_add
+  have hcl := hw.b.cur_le
+  unfold base at hse
+  unfold recExtent
+  split
+  · rename_i hf
+    have hlt := scan_found_lt (inp.drop (r.searchPos + base r)) (r.searchPos + base r)
+      (r.bp.seqPos.map (· + base r)) (by rw [hs.resum]; exact hf)
+    rw [hs.resum] at hlt
+    unfold base at hlt
+    omega
+  · omega
+
 /-- first half of a loop iteration: make space, either by shifting or by growing -/
 theorem resume_step1 {inp : List UInt8} {r : Reader} {s : Nat} (hw : Win inp r)
-    (hs : ScanSt inp r s) (hfull : r.br.cap ≤ r.br.buf.length) :
-    ∃ r1, ((r.bp.start = 0 ∧ grow r = (r1, Out.ok ())) ∨ (r.bp.start ≠ 0 ∧ makeRoom r = some r1)) ∧
-      Win inp r1 ∧ ScanSt inp r1 s ∧ r1.state = r.state ∧ r1.br.buf.length < r1.br.cap ∧
-      r1.br.src.cursor = r.br.src.cursor ∧ r1.line = r.line ∧ r1.byte = r.byte := by
+    (hs : ScanSt inp r s) (hfull : r.br.cap ≤ r.br.buf.length)
+    (hnear : r.br.buf.length ≤ r.searchPos + 1) :
+    ∃ r1 pre, Growth r r1 pre ∧ (∀ e ∈ pre, e.1 < recExtent inp s + 1) ∧
+      ((((r.bp.start = 0 ∧ grow r = (r1, Out.ok ())) ∨ (r.bp.start ≠ 0 ∧ makeRoom r = some r1)) ∧
+        (∀ e ∈ pre, e.2 ≠ none) ∧
+        Win inp r1 ∧ ScanSt inp r1 s ∧ r1.state = r.state ∧ r1.br.buf.length < r1.br.cap ∧
+        r1.br.src.cursor = r.br.src.cursor ∧ r1.line = r.line ∧ r1.byte = r.byte) ∨
+       (r.bp.start = 0 ∧ grow r = (r1, .err .bufferLimit) ∧ pre = [(r.br.cap, none)] ∧
+        r.pol.f (r.pol.hist ++ [r.br.cap]) = none)) := by
+  have hcap3 := hw.b.cap_ge
   by_cases h0 : r.bp.start = 0
-  · obtain ⟨r1, a, hg, hbr, hcap, hbp, hl, hb, hsp, hst, hpol⟩ := grow_ok hw.pol hfull
-    obtain ⟨hwb, hbase⟩ := reserve_win hw.b a
-    rw [← hbr] at hwb hbase
-    refine ⟨r1, Or.inl ⟨h0, hg⟩, ⟨hwb, hpol⟩, ?_, hst, ?_, ?_, hl, hb⟩
-    · exact scanSt_of_br hs hbase hbp hsp (by rw [hbr, reserve_buf]; exact Nat.le_refl _)
-    · have := hw.b.len_cap
-      rw [hbr, reserve_buf] at *; omega
-    · rw [hbr, reserve_src]
-  · obtain ⟨r1, hm, hw1, hs1, hst, hlen, hcap, hcur, hl, hb⟩ := makeRoom_scanSt hw hs
-    refine ⟨r1, Or.inr ⟨h0, hm⟩, hw1, hs1, hst, ?_, hcur, hl, hb⟩
+  · have hun := unfit_of_full hw hs h0 hfull hnear
+    rcases grow_spec hw.pol hfull (by omega) with
+      ⟨r1, n, hn, hg, hbr, hlt, hcap, hlog, hpf, hbp, hl, hb, hsp, hst⟩ | ⟨r1, hn, hg, hbr, hlog, hpf⟩
+    · obtain ⟨hwb, hbase⟩ := reserve_win hw.b (n - r.br.cap)
+      rw [← hbr] at hwb hbase
+      refine ⟨r1, [(r.br.cap, some n)], ⟨hlog, hpf, ?_⟩, ?_, Or.inl ⟨Or.inl ⟨h0, hg⟩, ?_,
+        ⟨hwb, polWfPos_congr hpf hw.pol⟩, ?_, hst, ?_, ?_, hl, hb⟩⟩
+      · simp only [LogChain]; exact ⟨trivial, hcap⟩
+      · intro e he
+        simp only [List.mem_singleton] at he
+        subst he
+        exact hun
+      · intro e he
+        simp only [List.mem_singleton] at he
+        subst he
+        intro h; cases h
+      · exact scanSt_of_br hs hbase hbp hsp (by rw [hbr, reserve_buf]; exact Nat.le_refl _)
+      · have := hw.b.len_cap
+        rw [hcap, hbr, reserve_buf]; omega
+      · rw [hbr, reserve_src]
+    · refine ⟨r1, [(r.br.cap, none)], ⟨hlog, hpf, ?_⟩, ?_, Or.inr ⟨h0, hg, rfl, hn⟩⟩
+      · exact ⟨rfl, rfl, by rw [hbr]⟩
+      · intro e he
+        simp only [List.mem_singleton] at he
+        subst he
+        exact hun
+  · obtain ⟨r1, hm, hw1, hs1, hst, hlen, hcap, hcur, hl, hb, hlog, hpol⟩ := makeRoom_scanSt hw hs
+    refine ⟨r1, [], Growth.same hlog (by rw [hpol]) hcap, (by intro e he; cases he),
+      Or.inl ⟨Or.inr ⟨h0, hm⟩, (by intro e he; cases he), hw1, hs1, hst, ?_, hcur, hl, hb⟩⟩
     have := hw.b.len_cap
-    have := hw.b.cap_ge
     rw [hlen, hcap]
     omega
 
 theorem resume_spec {inp : List UInt8} : ∀ (fuel : Nat) (r : Reader) (s : Nat),
     Win inp r → ScanSt inp r s → r.state = .incomplete → r.br.cap ≤ r.br.buf.length →
+    r.br.buf.length ≤ r.searchPos + 1 →
     inp.length - r.br.src.cursor < fuel →
-    ∃ r', resume fuel true r = (r', .ok true) ∧ Win inp r' ∧ Eof inp r' ∧ RecDone inp r' s ∧
-      r'.line = r.line ∧ r'.byte = r.byte ∧ (r'.state = .incomplete ∨ r'.state = .finished) := by
+    ∃ r' new, Growth r r' new ∧ (∀ e ∈ new, e.1 < recExtent inp s + 1) ∧
+      ((resume fuel true r = (r', .ok true) ∧ (∀ e ∈ new, e.2 ≠ none) ∧
+          Win inp r' ∧ Eof inp r' ∧ RecDone inp r' s ∧
+          r'.line = r.line ∧ r'.byte = r.byte ∧ (r'.state = .incomplete ∨ r'.state = .finished)) ∨
+       (resume fuel true r = (r', .err .bufferLimit) ∧ (∃ pre c, new = pre ++ [(c, none)]) ∧
+          ∃ h c, 1 ≤ c ∧ r.pol.f (h ++ [c]) = none)) := by
   intro fuel
   induction fuel with
-  | zero => intro r s _ _ _ _ h; omega
+  | zero => intro r s _ _ _ _ _ h; omega
   | succ f ih =>
-    intro r s hw hs hst hfull hfuel
-    obtain ⟨r1, h1, hw1, hs1, hst1, hlt1, hcur1, hl1, hb1⟩ := resume_step1 hw hs hfull
-    obtain ⟨br2, n, hfill, hwb2, heof2, hbase2, hcap2, hbuf2, hcur2, hn, _⟩ := fill_win hw1.b
-    have hw2 : Win inp { r1 with br := br2 } := ⟨hwb2, hw1.pol⟩
-    have hs2 : ScanSt inp { r1 with br := br2 } s :=
-      scanSt_of_br hs1 hbase2 rfl rfl (by show r1.br.buf.length ≤ br2.buf.length; rw [hbuf2]; simp)
-    have hst2 : ({ r1 with br := br2 } : Reader).state ≠ .finished := by
-      show r1.state ≠ .finished
-      rw [hst1, hst]; intro h; cases h
-    obtain ⟨r3, fnd, hsearch, hbr3, hpol3, hl3, hb3, hstart3, htrue, hfalse⟩ :=
-      search_step hw2 heof2 hs2 hst2
-    have hres : resume (f + 1) true r =
-        (if fnd = true then (r3, Out.ok true) else resume f true r3) := by
-      rcases h1 with ⟨h0, hg⟩ | ⟨h0, hm⟩
-      · simp only [resume, h0, hg, hfill, hsearch, Bool.not_true, Bool.false_or, decide_true, if_true]
-        cases fnd <;> rfl
-      · simp only [resume, h0, hm, hfill, hsearch, Bool.not_true, Bool.false_or, decide_false,
-          Bool.false_eq_true, if_false]
-        cases fnd <;> rfl
-    rw [hres]
-    cases fnd with
-    | true =>
-      obtain ⟨hdone, hstate⟩ := htrue rfl
-      refine ⟨r3, by simp, ⟨by rw [hbr3]; exact hwb2, by rw [hpol3]; exact hw1.pol⟩,
-        by unfold Eof; rw [hbr3]; exact heof2, hdone, by rw [hl3]; exact hl1,
-        by rw [hb3]; exact hb1, ?_⟩
-      rcases hstate with h | h
-      · left; rw [h]; show r1.state = _; rw [hst1, hst]
-      · right; exact h
-    | false =>
-      obtain ⟨hs3, hst3, hfull3⟩ := hfalse rfl
-      have hfull3' : br2.cap ≤ br2.buf.length := hfull3
-      have hlen2 : br2.buf.length = r1.br.buf.length + n := by
-        rw [hbuf2, List.length_append, List.length_take, List.length_drop]; omega
+    intro r s hw hs hst hfull hnear hfuel
+    obtain ⟨r1, pre, hg1, hun1, hcase⟩ := resume_step1 hw hs hfull hnear
+    rcases hcase with ⟨h1, hsome1, hw1, hs1, hst1, hlt1, hcur1, hl1, hb1⟩ | ⟨h0, hg, hpre, hrefuse⟩
+    · obtain ⟨br2, n, hfill, hwb2, heof2, hbase2, hcap2, hbuf2, hcur2, hn, _⟩ := fill_win hw1.b
+      have hw2 : Win inp { r1 with br := br2 } := ⟨hwb2, hw1.pol⟩
+      have hs2 : ScanSt inp { r1 with br := br2 } s :=
+        scanSt_of_br hs1 hbase2 rfl rfl (by show r1.br.buf.length ≤ br2.buf.length; rw [hbuf2]; simp)
+      have hst2 : ({ r1 with br := br2 } : Reader).state ≠ .finished := by
+        show r1.state ≠ .finished
+        rw [hst1, hst]; intro h; cases h
+      obtain ⟨r3, fnd, hsearch, hbr3, hpol3, hlog3, hl3, hb3, hstart3, htrue, hfalse⟩ :=
+        search_step hw2 heof2 hs2 hst2
+      have hg13 : Growth r1 r3 [] :=
+        Growth.same hlog3 (by rw [hpol3]) (by rw [hbr3]; exact hcap2)
+      have hres : resume (f + 1) true r =
+          (if fnd = true then (r3, Out.ok true) else resume f true r3) := by
+        rcases h1 with ⟨h0, hg⟩ | ⟨h0, hm⟩
+        · simp only [resume, h0, hg, hfill, hsearch, Bool.not_true, Bool.false_or, decide_true, if_true]
+          cases fnd <;> rfl
+        · simp only [resume, h0, hm, hfill, hsearch, Bool.not_true, Bool.false_or, decide_false,
+            Bool.false_eq_true, if_false]
+          cases fnd <;> rfl
+      rw [hres]
       have hw3 : Win inp r3 := ⟨by rw [hbr3]; exact hwb2, by rw [hpol3]; exact hw1.pol⟩
-      have hcl := hw1.b.cur_le
-      obtain ⟨r', hres', hw', he', hd', hl', hb', hst'⟩ := ih r3 s hw3 hs3 hst3
-        (by rw [hbr3]; exact hfull3') (by rw [hbr3, hcur2]; omega)
-      exact ⟨r', by simpa using hres', hw', he', hd', by rw [hl', hl3]; exact hl1, by rw [hb', hb3]; exact hb1, hst'⟩
+      cases fnd with
+      | true =>
+        obtain ⟨hdone, hstate⟩ := htrue rfl
+        have hg3 : Growth r r3 (pre ++ []) := hg1.trans hsome1 hg13
+        rw [List.append_nil] at hg3
+        refine ⟨r3, pre, hg3, hun1, Or.inl ⟨by simp, hsome1, hw3,
+          by unfold Eof; rw [hbr3]; exact heof2, hdone, by rw [hl3]; exact hl1,
+          by rw [hb3]; exact hb1, ?_⟩⟩
+        rcases hstate with h | h
+        · left; rw [h]; show r1.state = _; rw [hst1, hst]
+        · right; exact h
+      | false =>
+        obtain ⟨hs3, hst3, hfull3, hnear3⟩ := hfalse rfl
+        have hfull3' : br2.cap ≤ br2.buf.length := hfull3
+        have hlen2 : br2.buf.length = r1.br.buf.length + n := by
+          rw [hbuf2, List.length_append, List.length_take, List.length_drop]; omega
+        have hcl := hw1.b.cur_le
+        obtain ⟨r', new', hg', hun', hcase'⟩ := ih r3 s hw3 hs3 hst3
+          (by rw [hbr3]; exact hfull3') (by rw [hbr3]; exact hnear3) (by rw [hbr3, hcur2]; omega)
+        have hgr : Growth r r' (pre ++ new') := by
+          have := (hg1.trans hsome1 hg13).trans (by simpa using hsome1) hg'
+          simpa using this
+        have hunr : ∀ e ∈ pre ++ new', e.1 < recExtent inp s + 1 := by
+          intro e he
+          rcases List.mem_append.mp he with h | h
+          · exact hun1 e h
+          · exact hun' e h
+        refine ⟨r', pre ++ new', hgr, hunr, ?_⟩
+        rcases hcase' with ⟨hres', hsome', hw', he', hd', hl', hb', hst'⟩ | ⟨hres', ⟨p', c', hp'⟩, hh, hc, hc1, hrf⟩
+        · refine Or.inl ⟨by simpa using hres', ?_, hw', he', hd', by rw [hl', hl3]; exact hl1,
+            by rw [hb', hb3]; exact hb1, hst'⟩
+          intro e he
+          rcases List.mem_append.mp he with h | h
+          · exact hsome1 e h
+          · exact hsome' e h
+        · refine Or.inr ⟨by simpa using hres', ⟨pre ++ p', c', by rw [hp', List.append_assoc]⟩,
+            hh, hc, hc1, ?_⟩
+          rw [← hg1.polf, ← hg13.polf]
+          exact hrf
+    · have hres : resume (f + 1) true r = (r1, .err .bufferLimit) := by
+        simp only [resume, h0, hg, Bool.not_true, Bool.false_or, decide_true, if_true]
+      have hcap3 := hw.b.cap_ge
+      exact ⟨r1, pre, hg1, hun1, Or.inr ⟨hres, ⟨[], r.br.cap, by rw [hpre]; rfl⟩,
+        r.pol.hist, r.br.cap, by omega, hrefuse⟩⟩
 
 /-! ## second half of `next` -/
 
@@ -476,38 +674,55 @@ theorem recDone_parsing {inp : List UInt8} {r : Reader} {s : Nat} (h : RecDone i
   · intro h'; cases h'
   · intro h'; exact absurd (h.st.mpr h') hst
 
+/-- `nextCont` from a record start: either the record is found (possibly after growing the
+buffer), or the policy refused and the result is `BufferLimit` -/
 theorem nextCont_spec {inp : List UInt8} {r : Reader} {s fuel : Nat} (hw : Win inp r)
     (he : Eof inp r) (hs : ScanSt inp r s) (hst : r.state = .parsing) (hfuel : inp.length < fuel) :
-    ∃ r', nextCont fuel r = (r', .ok true) ∧ Win inp r' ∧ Eof inp r' ∧ RecDone inp r' s ∧
-      r'.line = r.line ∧ r'.byte = r.byte ∧ (r'.state = .parsing ∨ r'.state = .finished) := by
-  obtain ⟨r1, fnd, hsearch, hbr1, hpol1, hl1, hb1, hstart1, htrue, hfalse⟩ :=
+    ∃ r' new, Growth r r' new ∧ (∀ e ∈ new, e.1 < recExtent inp s + 1) ∧
+      ((nextCont fuel r = (r', .ok true) ∧ (∀ e ∈ new, e.2 ≠ none) ∧
+          Win inp r' ∧ Eof inp r' ∧ RecDone inp r' s ∧
+          r'.line = r.line ∧ r'.byte = r.byte ∧ (r'.state = .parsing ∨ r'.state = .finished)) ∨
+       (nextCont fuel r = (r', .err .bufferLimit) ∧ (∃ pre c, new = pre ++ [(c, none)]) ∧
+          ∃ h c, 1 ≤ c ∧ r.pol.f (h ++ [c]) = none)) := by
+  obtain ⟨r1, fnd, hsearch, hbr1, hpol1, hlog1, hl1, hb1, hstart1, htrue, hfalse⟩ :=
     search_step hw he hs (by rw [hst]; intro h; cases h)
   have hw1 : Win inp r1 := ⟨by rw [hbr1]; exact hw.b, by rw [hpol1]; exact hw.pol⟩
   have hne : r.state ≠ .incomplete := by rw [hst]; intro h; cases h
+  have hg01 : Growth r r1 [] := Growth.same hlog1 (by rw [hpol1]) (by rw [hbr1])
   cases fnd with
   | true =>
     obtain ⟨hdone, hstate⟩ := htrue rfl
     have hni : r1.state ≠ .incomplete := by
       rcases hstate with h | h <;> rw [h] <;> (try rw [hst]) <;> intro h' <;> cases h'
-    refine ⟨r1, ?_, hw1, by unfold Eof; rw [hbr1]; exact he, hdone, hl1, hb1, ?_⟩
+    refine ⟨r1, [], hg01, (by intro e he; cases he), Or.inl ⟨?_, (by intro e he; cases he), hw1,
+      by unfold Eof; rw [hbr1]; exact he, hdone, hl1, hb1, ?_⟩⟩
     · simp only [nextCont, hne, ne_eq, not_false_eq_true, if_true, hsearch, Option.map_some, hni,
         if_false]
     · rcases hstate with h | h
       · left; rw [h, hst]
       · right; exact h
   | false =>
-    obtain ⟨hs1, hst1, hfull⟩ := hfalse rfl
+    obtain ⟨hs1, hst1, hfull, hnear⟩ := hfalse rfl
     have hcl := hw.b.cur_le
-    obtain ⟨r2, hres, hw2, he2, hd2, hl2, hb2, hst2⟩ := resume_spec fuel r1 s hw1 hs1 hst1
-      (by rw [hbr1]; exact hfull) (by omega)
-    rcases hst2 with h2 | h2
-    · have hnf : r2.state ≠ .finished := by rw [h2]; intro h; cases h
-      refine ⟨{ r2 with state := .parsing }, ?_, ⟨hw2.b, hw2.pol⟩, he2, recDone_parsing hd2 hnf,
-        by rw [← hl1, ← hl2], by rw [← hb1, ← hb2], Or.inl rfl⟩
+    obtain ⟨r2, new, hg2, hun, hcase⟩ := resume_spec fuel r1 s hw1 hs1 hst1
+      (by rw [hbr1]; exact hfull) (by rw [hbr1]; exact hnear) (by omega)
+    have hg02 : Growth r r2 new := by
+      have := hg01.trans (by intro e he; cases he) hg2
+      simpa using this
+    rcases hcase with ⟨hres, hsome, hw2, he2, hd2, hl2, hb2, hst2⟩ | ⟨hres, hlast, hh, hc, hc1, hrf⟩
+    · rcases hst2 with h2 | h2
+      · have hnf : r2.state ≠ .finished := by rw [h2]; intro h; cases h
+        refine ⟨{ r2 with state := .parsing }, new, ⟨hg02.log, hg02.polf, hg02.chain⟩, hun,
+          Or.inl ⟨?_, hsome, ⟨hw2.b, hw2.pol⟩, he2, recDone_parsing hd2 hnf,
+          by rw [← hl1, ← hl2], by rw [← hb1, ← hb2], Or.inl rfl⟩⟩
+        simp only [nextCont, hne, ne_eq, not_false_eq_true, if_true, hsearch, Option.map_some, hst1,
+          hres, hnf]
+      · refine ⟨r2, new, hg02, hun, Or.inl ⟨?_, hsome, hw2, he2, hd2, by rw [hl2, hl1],
+          by rw [hb2, hb1], Or.inr h2⟩⟩
+        simp only [nextCont, hne, ne_eq, not_false_eq_true, if_true, hsearch, Option.map_some, hst1,
+          hres, h2, not_true_eq_false, if_false]
+    · refine ⟨r2, new, hg02, hun, Or.inr ⟨?_, hlast, hh, hc, hc1, by rw [← hpol1]; exact hrf⟩⟩
       simp only [nextCont, hne, ne_eq, not_false_eq_true, if_true, hsearch, Option.map_some, hst1,
-        hres, hnf]
-    · refine ⟨r2, ?_, hw2, he2, hd2, by rw [hl2, hl1], by rw [hb2, hb1], Or.inr h2⟩
-      simp only [nextCont, hne, ne_eq, not_false_eq_true, if_true, hsearch, Option.map_some, hst1,
-        hres, h2, not_true_eq_false, if_false]
+        hres]
 
 end SeqIo.Fasta
